@@ -22,7 +22,7 @@ func init() {
 		Real:           []string{"glow codecs and secp256k1", "server report handler (parse, verify, window checks, integrate, persist)", "server HTTP handlers (stats, recent reports)", "TCP sync handler", "background loops", "real files on tmpfs"},
 		Stub:           []string{"UDP socket read loop (modelled: leading 80 bytes of datagrams >= 80 bytes)", "HTTP/TCP accept loops"},
 		Assumptions:    []string{"fresh ids always carry fresh keys"},
-		RequiredProbes: []string{"c02.equivocation", "c02.over-capacity", "c02.replay", "c02.resigned", "c02.negative", "c02.late-restart"},
+		RequiredProbes: []string{"c02.equivocation", "c02.over-capacity", "c02.replay", "c02.resigned", "c02.negative", "c02.late-restart", "c02.mid-run-reads"},
 		RequiredSites:  []string{"report.after-write", "report.before-write"},
 	})
 }
@@ -91,6 +91,12 @@ func runC02(m *Sim) {
 			}
 			b = r.Encode()
 			sent = append(sent, b)
+		}
+		if m.C.Chance("read-surfaces", 1, 12) {
+			// Read-only requests in the middle of the traffic.
+			c02Pump(w, n)
+			c02Surfaces(w, n, devs)
+			m.Probe("c02.mid-run-reads")
 		}
 		// Through the fabric: queue, then pump with the seeded policy.
 		w.sendUDP(b, n.Loc+":8200")
@@ -189,6 +195,10 @@ func c02Surfaces(w *World, n *ServerNode, devs []*Device) {
 		}
 	}
 	for _, d := range devs {
+		// Reading is not writing: a recent-reports request leaves every value
+		// as it is (checked by the comparison with the model right after).
+		n.GetRecentStatus(d.Key.Pub)
+		n.Check(w.Prop+".machine", "after-recent-reports-read")
 		bits := n.SyncBits(d.ID)
 		for i := 0; i < 4032; i++ {
 			want := n.Model.Devices[d.ID].Slots[n.Model.Offset+uint32(i)] != nil
